@@ -148,6 +148,41 @@ def enumerate_pipeline(run, module, what, env=None, timeout=900, tag="OUT", extr
     return {n: v for n, (_, v) in enumerate(recs)}, read_ndjson(out_path)
 
 
+def enumerate_stream(run, module, what, sig_of, env=None, timeout=900, name="enum"):
+    """enumerate_pipeline + absorb for enumerations of millions of cases: nothing is held in memory but the rows that
+    are not "ok" and one digest per distinct case"""
+    import hashlib
+    from vlib import tlc_stream, iter_ndjson
+    exp_path = run.path(name + ".exp.ndjson")
+    res, n = tlc_stream(module, exp_path, env=env, timeout=timeout)
+    run.add_tlc(res)
+    out_path = run.path(name + ".res.ndjson")
+    harness(["replay", what, "--exp", exp_path, "--out", out_path], timeout=3600)
+    status = {}
+    special = {}
+    for r in iter_ndjson(out_path):
+        st = r.get("status")
+        if st == "ok" and r.get("nontrivial", True):
+            status[r["id"]] = 1
+        elif st == "ok":
+            status[r["id"]] = 0
+        else:
+            status[r["id"]] = 2
+            special[r["id"]] = r
+    if len(status) != n:
+        raise ToolError("harness replay %s answered %d of %d cases" % (what, len(status), n))
+    for rec in iter_ndjson(exp_path):
+        i, case = rec["id"], rec["exp"]
+        key = hashlib.blake2b(canon(case).encode(), digest_size=12).hexdigest()
+        st = status.get(i)
+        if st in (0, 1):
+            run.evaluated(key, st == 1)
+            run.traces += 1
+            run.sample({"case": case, "result": "ok"})
+        else:
+            absorb(run, [special[i]], {i: case}, sig_of)
+
+
 def replay_pipeline(run, what, case, extra_replay=None):
     """re-run one emitted case (a --replay file) through the harness"""
     exp_path = run.path("replay.exp.ndjson")
@@ -229,8 +264,9 @@ def check_C14(run, replay):
         cases, rows = replay_pipeline(run, "import", replay_case(replay)["case"])
     else:
         env = {"SLIM": 1, "MAXPAIRS": 2, "MAXENTRIES": 2} if run.tier == "quick" else {"SLIM": 0, "MAXPAIRS": 2, "MAXENTRIES": 2}
-        cases, rows = enumerate_pipeline(run, "MC_Import", "import", env=env, timeout=3000)
         run.exhaustive = True
+        enumerate_stream(run, "MC_Import", "import", mismatch_sig("import"), env=env, timeout=3000)
+        return
     absorb(run, rows, cases, mismatch_sig("import"))
 
 
